@@ -43,6 +43,74 @@ def apply_patch(d, patch):
     return r.returncode == 0
 
 
+def control_fixture(prop):
+    """zero-expected rules run against fixtures/control, where they must fire (and stay silent on the negative twin)"""
+    if prop != 'C08':
+        return None
+    try:
+        prog = engine.extract(repo=os.path.join(VERIF, 'fixtures', 'control'), target=os.path.join(engine.CACHE, 'target-control'), tag='control', crate='control')
+    except Exception as e:
+        return {'error': str(e)[-300:]}
+    import importlib
+    c08 = importlib.import_module('props.c08')
+    ctx = engine.Ctx(prog, 'C08')
+    c08.d3(ctx, 'C08.D3')
+    fired = sorted(i.key for i in ctx.insts if not i.ok)
+    return {'C08.D3': {'fired_on': fired, 'positive_example_detected': any('std_guard_across_await' in k for k in fired),
+                       'negative_twin_silent': not any('dropped_before_await' in k for k in fired)}}
+
+
+E4_PRIMS = None
+
+
+def cross_extraction(prop):
+    """E4: second, independent list of the raw OS primitives' call sites from a HIR lint (clippy disallowed-methods with
+    clippy/clippy.toml) compared with the MIR extraction. A disagreement is an engine problem (reported, never a verdict)."""
+    if prop not in ('C07', 'C12'):
+        return None
+    import re
+    d = None
+    try:
+        d = scratch_copy()
+        shutil.copy(os.path.join(VERIF, 'clippy', 'clippy.toml'), os.path.join(d, 'clippy.toml'))
+        env = dict(os.environ)
+        env.update({'CARGO_NET_OFFLINE': 'true', 'CARGO_TARGET_DIR': os.path.join(engine.CACHE, 'target-clippy')})
+        r = subprocess.run('cargo +nightly clippy --offline --lib -- -W clippy::disallowed_methods', shell=True, cwd=d, env=env,
+                           stdout=subprocess.PIPE, stderr=subprocess.STDOUT, text=True)
+        if r.returncode != 0:
+            return {'error': r.stdout[-300:]}
+        sites = set()
+        lines = r.stdout.splitlines()
+        for i, l in enumerate(lines):
+            m = re.search(r'use of a disallowed method `([^`]+)`', l)
+            if m:
+                for l2 in lines[i + 1:i + 4]:
+                    m2 = re.search(r'--> (src/[^:]+):(\d+):', l2)
+                    if m2:
+                        sites.add((m.group(1), m2.group(1), int(m2.group(2))))
+                        break
+        prims_list = []
+        for l in open(os.path.join(VERIF, 'clippy', 'clippy.toml')):
+            prims_list += re.findall(r'"([a-z_:A-Z]+)"', l)
+        prog = engine.extract(repo=d, tag='e4')
+        import prims as P
+        mir = set()
+        for f in prog.fns.values():
+            for c in f.calls:
+                if c.name == 'poll':
+                    continue
+                b = P.base(c.target)
+                if b in prims_list or c.path in prims_list:
+                    mir.add((b if b in prims_list else c.path, f.file, c.t.get('fl', c.line)))
+        return {'clippy_sites': len(sites), 'mir_sites': len(mir), 'agree': sites == mir,
+                'only_clippy': sorted(sites - mir)[:10], 'only_mir': sorted(mir - sites)[:10]}
+    except Exception as e:
+        return {'error': str(e)[-300:]}
+    finally:
+        if d:
+            shutil.rmtree(d, ignore_errors=True)
+
+
 def run(prop, ev):
     t0 = time.time()
     lines = []
@@ -96,7 +164,13 @@ def run(prop, ev):
                'not_holding (unarmed, informational)': sorted({'%s %s' % (i.rule, i.key) for i in rctx.insts if not i.ok})[:20]}
     except Exception as e:  # the feature build is not part of the pinned configuration: never fatal
         rio = {'error': str(e)[-300:]}
+    control = control_fixture(prop)
+    e4 = cross_extraction(prop)
     cov = ev['coverage']
+    cov['control_fixture'] = control
+    cov['cross_extraction_clippy'] = e4
+    if e4 and e4.get('agree') is False:
+        lines.append('E4-DISAGREE property=%s clippy/MIR call-site lists differ: only clippy %s, only MIR %s' % (prop, e4['only_clippy'], e4['only_mir']))
     cov['selftest'] = {
         'mutants_for_this_property': len(mine), 'killed': sum(1 for x in matrix if x['status'] == 'killed'),
         'missed': sum(1 for x in matrix if x['status'] == 'MISSED'), 'skipped': sum(1 for x in matrix if x['status'].startswith('skipped')),
